@@ -93,7 +93,15 @@ def run(cfg, w):
         else:
             try:
                 r = bad[name](E)
-            except Exception:
+            except (NameError, ImportError, SyntaxError) as e:
+                # a slip in the harness itself must not pass for flodym rejecting the call
+                raise RuntimeError(f"harness error in ill-formed call {name}: {type(e).__name__}: {e}")
+            except Exception as e:
+                import traceback
+
+                last = traceback.extract_tb(e.__traceback__)[-1].filename
+                if "/checks/" in last and not isinstance(e, (ValueError, KeyError, TypeError)):
+                    raise RuntimeError(f"harness error in ill-formed call {name}: {type(e).__name__}: {e}")
                 w.ob(f"{tag}:ill_formed_call_rejected", True)
                 E.check_unchanged(tag, snap)
                 all_invariants(w, tag, E)
